@@ -937,7 +937,7 @@ fn main() {
             let ties = args.iter().any(|a| a == "--ties");
             let offgrid = args.iter().any(|a| a == "--offgrid");
             if args.iter().any(|a| a == "--env") {
-                match envrun::search_env(&prop, seed, nrandom, budget) {
+                match envrun::search_env(&prop, seed, nrandom, budget, args.iter().any(|a| a == "--overrun")) {
                     Some((h, fails)) => {
                         let doc = serde_json::json!({"history": h, "failures": fails});
                         if let Some(out) = arg(&args, "--out") {
